@@ -1,10 +1,10 @@
 package vsim
 
 import (
-	"time"
 	"errors"
 	"fmt"
 	"io"
+	"time"
 
 	tchannel "github.com/uber/tchannel-go"
 	"github.com/uber/tchannel-go/relay"
@@ -137,10 +137,13 @@ func (c *SpyCall) log(what string) {
 }
 
 func (c *SpyCall) Destination() (*tchannel.Peer, bool) { return c.peer, c.peer != nil }
-func (c *SpyCall) SentBytes(n uint16)                    { c.log(fmt.Sprintf("sent(%d)", n)); c.dawdle() }
-func (c *SpyCall) ReceivedBytes(n uint16)                { c.log(fmt.Sprintf("received(%d)", n)); c.dawdle() }
-func (c *SpyCall) CallResponse(f relay.RespFrame)        { c.log(fmt.Sprintf("callres(ok=%v)", f.OK())); c.dawdle() }
-func (c *SpyCall) Succeeded()                            { c.log("succeeded"); c.dawdle() }
+func (c *SpyCall) SentBytes(n uint16)                  { c.log(fmt.Sprintf("sent(%d)", n)); c.dawdle() }
+func (c *SpyCall) ReceivedBytes(n uint16)              { c.log(fmt.Sprintf("received(%d)", n)); c.dawdle() }
+func (c *SpyCall) CallResponse(f relay.RespFrame) {
+	c.log(fmt.Sprintf("callres(ok=%v)", f.OK()))
+	c.dawdle()
+}
+func (c *SpyCall) Succeeded() { c.log("succeeded"); c.dawdle() }
 func (c *SpyCall) Failed(reason string) {
 	c.failed = append(c.failed, reason)
 	c.h.w.probe("relay.failed(" + reason + ")")
